@@ -200,8 +200,10 @@ fn run(input: RunInput) -> ScenFuture {
                     decided += 1;
                 }
                 // (with a small cap on connections being established, hanging dials may legitimately
-                // postpone a background dial: that is C13's subject)
-                if !connected && !lossy && !(small_cap.is_some() && hanging) {
+                // postpone a background dial: that is C13's subject; so may the dials of other High
+                // entries' stale addresses, each of which holds the one slot for its connect timeout:
+                // sweep seed 6007)
+                if !connected && !lossy && !(small_cap.is_some() && (hanging || stale_addresses)) {
                     w.violate("background-dial-to-high-peer-blocked", format!("limit={limit:?}"), format!("step {step}: {desc}"));
                 }
                 if connected {
